@@ -253,9 +253,35 @@ func (dec *Decoder) DiscardLine() {
 	if dec.crlf {
 		return
 	}
-	var text string
-	dec.Text(&text)
-	dec.CRLF()
+	for {
+		var text string
+		dec.Text(&text)
+		if !dec.CRLF() || dec.side != ConnSideServer {
+			return
+		}
+		// If the line ends with a non-synchronizing literal, the client
+		// sends the data right away: it's part of what is discarded
+		size, ok := nonSyncLiteralSuffix(text)
+		if !ok {
+			return
+		}
+		if _, err := io.CopyN(io.Discard, dec.r, size); err != nil {
+			return
+		}
+	}
+}
+
+func nonSyncLiteralSuffix(line string) (size int64, ok bool) {
+	if !strings.HasSuffix(line, "+}") {
+		return 0, false
+	}
+	line = strings.TrimSuffix(line, "+}")
+	i := strings.LastIndexByte(line, '{')
+	if i < 0 {
+		return 0, false
+	}
+	size, err := strconv.ParseInt(line[i+1:], 10, 64)
+	return size, err == nil && size >= 0
 }
 
 func (dec *Decoder) DiscardValue() bool {
